@@ -325,6 +325,14 @@ func (r *nodeRun) resultMutations(res ctypes.Operation) []resMut {
 // failed: here, the commits operation handed to it a second time - "instance already exists"). Such an answer is an answer
 // like any other: posted once, the operation retired, a second submission refused.
 func (r *nodeRun) errorResults(outDir string) {
+	// as the machine wrote it, and the same result carrying 16 / 17 / 33 messages (what the deals step of a ceremony of that
+	// many participants carries): however many messages a result holds, exactly those reach the board
+	for _, pad := range []int{0, 16, 17, 33} {
+		r.errorResultsPadded(outDir, pad)
+	}
+}
+
+func (r *nodeRun) errorResultsPadded(outDir string, pad int) {
 	dir, _ := os.MkdirTemp(outDir, "errres")
 	defer os.RemoveAll(dir)
 	c, err := newCluster(dir, 2, "pw")
@@ -380,6 +388,11 @@ func (r *nodeRun) errorResults(outDir string) {
 		return
 	}
 	r.st.ErrorResults++
+	for len(res.ResultMsgs) > 0 && len(res.ResultMsgs) < pad {
+		cp := res.ResultMsgs[0]
+		cp.RecipientAddr = fmt.Sprintf("addressee-%d", len(res.ResultMsgs))
+		res.ResultMsgs = append(res.ResultMsgs, cp)
+	}
 	from := len(c.boardMessages())
 	// the result file is submitted TWICE AT THE SAME TIME (a double click, a retried script; the HTTP server handles requests
 	// concurrently): the submission that reaches the board first waits there until the other one is at the board too, or 300 ms
@@ -426,7 +439,16 @@ func (r *nodeRun) errorResults(outDir string) {
 		return
 	}
 	if posted := len(c.boardMessages()) - from; posted != len(res.ResultMsgs) {
-		r.mon(fmt.Sprintf("C15 posted_exactly_result: the same result file (%s, %d message) submitted twice at the same time: %d messages reached the board (the two requests answered: %v | %v)", res.Event, len(res.ResultMsgs), posted, errs[0], errs[1]))
+		r.mon(fmt.Sprintf("C15 posted_exactly_result: the same result file (%s, %d message(s)) submitted twice at the same time: %d messages reached the board (the two requests answered: %v | %v)", res.Event, len(res.ResultMsgs), posted, errs[0], errs[1]))
+	} else {
+		// each message of the result once, in the order of the result
+		bm := c.boardMessages()[from:]
+		for k := range res.ResultMsgs {
+			if bm[k].RecipientAddr != res.ResultMsgs[k].RecipientAddr || string(bm[k].Data) != string(res.ResultMsgs[k].Data) {
+				r.mon(fmt.Sprintf("C15 posted_exactly_result: a result with %d messages: the message posted at place %d is not the result's message %d", len(res.ResultMsgs), k, k))
+				break
+			}
+		}
 	}
 	for _, p := range obs.pendingOps() {
 		if p.ID == res.ID {
